@@ -302,3 +302,11 @@ func tomlStr(s string) string {
 	b.WriteByte('"')
 	return b.String()
 }
+
+// Pick2 returns a or b.
+func (r *Rng) Pick2(a, b int) int {
+	if r.Intn(2) == 0 {
+		return a
+	}
+	return b
+}
